@@ -10,6 +10,42 @@ Definition pages_stream {V} (pages : list (page V)) : list entry * list V :=
 
 Definition nonempty_pages {V} (pages : list (page V)) : Prop := Forall (fun p => fst p <> []) pages.
 
+(* ---------- the decidable side conditions on a page split ---------- *)
+
+(* number of entries of a page that carry a value *)
+Fixpoint count_md (md : N) (es : list entry) : nat :=
+  match es with
+  | [] => O
+  | (_, d) :: t => if d =? md then S (count_md md t) else count_md md t
+  end.
+
+(* the page holds exactly the values its levels announce (what num_values / the level streams
+   of a data page say; a reader decodes count_md values from the page) *)
+Definition page_aligned {V} (sh : shape) (p : page V) : bool :=
+  Nat.eqb (length (snd p)) (count_md (max_def sh) (fst p)).
+Definition pages_aligned {V} (sh : shape) (pages : list (page V)) : bool := forallb (page_aligned sh) pages.
+
+(* scanning the continued part of a row at the start of a page: `vali` = values met so far *)
+Fixpoint good_cont (md : N) (vali : N) (es : list entry) (is_last : bool) : bool :=
+  match es with
+  | [] => is_last
+  | (r, d) :: t =>
+    if r =? 0 then 0 <? vali
+    else good_cont md (if d =? md then vali + 1 else vali) t is_last
+  end.
+
+Definition good_page {V} (sh : shape) (is_last : bool) (p : page V) : bool :=
+  match fst p with
+  | [] => false
+  | (r, _) :: _ => (r =? 0) || good_cont (max_def sh) 0 (fst p) is_last
+  end.
+
+Fixpoint good_split {V} (sh : shape) (pages : list (page V)) : bool :=
+  match pages with
+  | [] => true
+  | p :: t => good_page sh (match t with [] => true | _ => false end) p && good_split sh t
+  end.
+
 (* (1) rows [[None, None | None], [7]]  (| = v1 page boundary): the continued part of row 0 holds
    only null elements, so `vali > 0` is false at the first rep == 0 of page 2, the pending
    `part` is neither appended to row 0 nor cleared, and its element lands in row 1. *)
@@ -20,11 +56,13 @@ Definition w1_wrong : list (row N) := [Some [None; None]; Some [None; Some 7]].
 Lemma null_continuation_refuted :
   exists (sh : shape) (rows : list (row N)) (pages : list (page N)) (wrong : list (row N)),
     wf_rows sh rows = true /\ pages_stream pages = shred sh rows /\ nonempty_pages pages /\
+    pages_aligned sh pages = true /\ good_split sh pages = false /\
     run_v1 sh (length rows) pages = AOk wrong /\ wrong <> rows.
 Proof.
   exists (mkShape true true), w1_rows, w1_pages, w1_wrong.
   split; [vm_compute; reflexivity|]. split; [vm_compute; reflexivity|].
   split; [repeat constructor; discriminate|].
+  split; [vm_compute; reflexivity|]. split; [vm_compute; reflexivity|].
   split; [vm_compute; reflexivity|]. discriminate.
 Qed.
 
@@ -36,11 +74,13 @@ Definition w2_pages : list (page N) := [([(0,3)], [1]); ([(1,3);(1,3)], [2;3]); 
 Lemma three_page_row_refuted :
   exists (sh : shape) (rows : list (row N)) (pages : list (page N)),
     wf_rows sh rows = true /\ pages_stream pages = shred sh rows /\ nonempty_pages pages /\
+    pages_aligned sh pages = true /\ good_split sh pages = false /\
     run_v1 sh (length rows) pages = AErr (OobWrite (length rows)).
 Proof.
   exists (mkShape true true), w2_rows, w2_pages.
   split; [vm_compute; reflexivity|]. split; [vm_compute; reflexivity|].
-  split; [repeat constructor; discriminate|]. vm_compute; reflexivity.
+  split; [repeat constructor; discriminate|].
+  split; [vm_compute; reflexivity|]. split; [vm_compute; reflexivity|]. vm_compute; reflexivity.
 Qed.
 
 (* (3) the pinned read_data_page_v2 passed null=True for every schema: a REQUIRED list
